@@ -9,7 +9,7 @@
    batch; an lbfgs/ga result that is already sampled is replaced by the best filtered candidate). *)
 From Coq Require Import List ZArith Bool Arith Permutation.
 Import ListNotations.
-Require Import DH.C08_NoDup.Model DH.C08_NoDup.Check DH.C08_NoDup.Lemmas DH.C08_NoDup.Lemmas2 DH.C08_NoDup.Lemmas3 DH.C08_NoDup.Lemmas4.
+Require Import DH.C08_NoDup.Model DH.C08_NoDup.Check DH.C08_NoDup.Lemmas DH.C08_NoDup.Lemmas2 DH.C08_NoDup.Lemmas3 DH.C08_NoDup.Lemmas4 DH.C08_NoDup.Lemmas5.
 Open Scope Z_scope.
 
 (* _filter_duplicated: when the sample contains a point outside the history, exactly the new points of the sample, once each;
@@ -67,6 +67,34 @@ Theorem C08_finite_space_cbo : forall c n0 U tr sf hs, fixed c = true -> NoDup U
   /\ ((length U <= length (returned tr))%nat -> Permutation (firstn (length U) (returned tr)) U).
 Proof. exact finite_space_cbo. Qed.
 Print Assumptions C08_finite_space_cbo.
+
+(* ---- state that survives between calls ----
+   the CBO wrapper (CBO._ask / CBO._tell with the flag _asked_not_told, F50): for EVERY sequence of CBO-level calls - several
+   search() calls, calls that stop between an ask and its tell, the public ask / tell interface in any order, fit_surrogate -
+   what reaches the optimizer never has two asks in a row *)
+Theorem C08_wrapper_alternates : forall ops flag prev, (prev = true -> flag = true) -> alt_k prev (wrap flag ops) = true.
+Proof. exact wrap_alternates. Qed.
+Print Assumptions C08_wrapper_alternates.
+
+(* hence every observed history whose event kinds are the wrapper's output satisfies the hypothesis of C08_cbo_schedule,
+   C08_tell_between_asks and C08_finite_space_cbo, whatever the calls were *)
+Theorem C08_wrapper_history_alternates : forall tr ops, kinds_eqb (map kind_of tr) (wrap false ops) = true -> alternating false tr = true.
+Proof. exact wrapper_history_alternates. Qed.
+Print Assumptions C08_wrapper_history_alternates.
+
+(* warm start (fit_surrogate): n_initial_points = 0 and a first tell of the checkpoint - the schedule hypotheses hold as well *)
+Theorem C08_cbo_schedule_warm : forall c n0 k cl tr sf hs, free_opt c && negb (fixed c) = false -> n0 <= 0 -> dummy c = false ->
+  run c (init_st n0 []) (Tell k cl :: tr) = Some (sf, hs) -> alternating false tr = true -> strategies_ok tr = true ->
+  Forall (fun h => (h <= 1)%nat) hs.
+Proof. exact cbo_schedule_warm. Qed.
+Print Assumptions C08_cbo_schedule_warm.
+
+(* cache coherence: in every reachable state the ask cache only holds points that are recorded in sampled (so a cache hit, code 3,
+   is always a repeat - the reason why CBO has to renew the suggestions instead of asking again) *)
+Theorem C08_cache_coherent : forall c n0 ini tr sf hs n strat X, run c (init_st n0 ini) tr = Some (sf, hs) ->
+  cache sf = Some (n, strat, X) -> incl X (sampled sf).
+Proof. exact cache_coherent. Qed.
+Print Assumptions C08_cache_coherent.
 
 (* the precondition is needed: two single asks of the model phase without a tell in between return the same point
    (what CBO did when a tell dropped every result, F11) *)
